@@ -140,6 +140,7 @@ type Machine struct {
 	nchoice int
 	atomicSection int
 	ss simplState
+	loopBounds []loopBound
 }
 
 func (m *Machine) noteFunc(fn *ssa.Function, native bool) {
@@ -506,6 +507,23 @@ func (p *Program) Explore(fn *ssa.Function, cfg RunConfig) *HarnessRun {
 		hr.work = [][]byte{cfg.OnlyPrefix}
 	} else {
 		hr.work = [][]byte{nil}
+	}
+	if os.Getenv("VERIF_PROGRESS") != "" {
+		stopProg := make(chan struct{})
+		defer close(stopProg)
+		go func() {
+			t0 := time.Now()
+			for {
+				select {
+				case <-stopProg:
+					return
+				case <-time.After(10 * time.Second):
+					hr.mu.Lock()
+					fmt.Fprintf(os.Stderr, "[%s %.0fs] paths=%d queued=%d active=%d ends=%v viol=%d errs=%d\n", hr.name, time.Since(t0).Seconds(), hr.paths, len(hr.work), hr.active, hr.ended, len(hr.viol), len(hr.errs))
+					hr.mu.Unlock()
+				}
+			}
+		}()
 	}
 	var wg sync.WaitGroup
 	for w := 0; w < cfg.Workers; w++ {
